@@ -4,6 +4,7 @@ import (
 	"encoding/binary"
 	"math"
 	"sync"
+	"sync/atomic"
 	"time"
 
 	"github.com/massnetorg/mass-core/logging"
@@ -23,7 +24,7 @@ func newQueuedWorkSpace(ws *WorkSpace, wouldMining bool) *queuedWorkSpace {
 	return &queuedWorkSpace{
 		ws:          ws,
 		wouldMining: wouldMining,
-		epoch:       ws.reqEpoch,
+		epoch:       atomic.LoadUint64(&ws.reqEpoch),
 	}
 }
 
@@ -147,7 +148,7 @@ func (sk *SpaceKeeper) spacePlotter() {
 		}
 		// Step 1: safely change state to plotting/mining
 		sk.stateLock.Lock()
-		if qws.epoch != ws.reqEpoch {
+		if qws.epoch != atomic.LoadUint64(&ws.reqEpoch) {
 			// the request was cancelled (stop/remove/delete) while it waited in the
 			// hand-off channel or after it had been popped from the queue
 			sk.stateLock.Unlock()
@@ -165,8 +166,8 @@ func (sk *SpaceKeeper) spacePlotter() {
 		sk.stateLock.Unlock()
 		verifPlotterEvent(sk, "step1", sid)
 
-		// Step 2: plot space (wait for finishing)
-		ws.Plot()
+		// Step 2: plot space (wait for finishing), unless it has been stopped meanwhile
+		ws.plotIfCurrent(qws.epoch)
 		verifPlotterEvent(sk, "plotReturned", sid)
 
 		// Step 3: change workSpace state
